@@ -197,7 +197,9 @@ def _is_memo(d, module=None):
     nm = _deco_name(d)
     if nm.split(".")[-1] in MEMO_NAMES:
         return True
-    if module is not None and isinstance(d, ast.Name):
+    d0 = d.func if isinstance(d, ast.Call) else d
+    if module is not None and isinstance(d0, ast.Name):
+        d = d0
         tree = getattr(module, "tree", None)
         if tree is not None:
             for x in ast.walk(tree):
@@ -229,18 +231,42 @@ def provably_str(e, fi=None, depth=0):
         return provably_str(e.body, fi, depth + 1) and provably_str(e.orelse, fi, depth + 1)
     if isinstance(e, ast.Attribute) and e.attr in ("__name__", "__qualname__", "__module__"):
         return True
+    if depth > 4:
+        return False
+    if isinstance(e, ast.BoolOp):
+        return all(provably_str(v, fi, depth + 1) for v in e.values)
+    if isinstance(e, ast.Attribute) and e.attr in ("path", "query", "netloc", "scheme", "fragment", "params") and \
+            not (isinstance(e.value, ast.Name) and e.value.id == "self"):
+        return True        # the string fields of a urlparse() result
+    if isinstance(e, ast.Name) and fi is not None:
+        vals = [x.value for x in ast.walk(fi.node) if isinstance(x, ast.Assign) and any(isinstance(t, ast.Name) and t.id == e.id for t in x.targets)]
+        other = [x for x in ast.walk(fi.node) if isinstance(x, ast.Name) and x.id == e.id and isinstance(x.ctx, ast.Store)]
+        return bool(vals) and len(other) == len(vals) and e.id not in fi.params and all(provably_str(v, fi, depth + 1) for v in vals)
+    if isinstance(e, ast.Attribute) and isinstance(e.value, ast.Name) and e.value.id == "self" and fi is not None and fi.cls is not None:
+        vals = []
+        for m in fi.cls.methods.values():
+            for x in ast.walk(m.node):
+                if isinstance(x, ast.Assign):
+                    for t in x.targets:
+                        if isinstance(t, ast.Attribute) and isinstance(t.value, ast.Name) and t.value.id == "self" and t.attr == e.attr:
+                            vals.append((m, x.value))
+                        elif isinstance(t, ast.Tuple) and any(isinstance(z, ast.Attribute) and z.attr == e.attr for z in t.elts):
+                            return False
+                elif isinstance(x, (ast.AugAssign, ast.AnnAssign)) and isinstance(x.target, ast.Attribute) and x.target.attr == e.attr:
+                    return False
+        return bool(vals) and all(provably_str(v, m, depth + 1) for (m, v) in vals)
     return False
 
 
-def _immutable_result(fn):
-    """every return of the function is a constant, a name of a class / function, or a tuple of such"""
+def _immutable_result(fn, str_params=()):
+    """every return of the function is a constant, a name of a class / function, a parameter known to be a string, or a tuple of such"""
     def imm(e):
         if e is None or isinstance(e, ast.Constant):
             return True
         if isinstance(e, ast.Tuple):
             return all(imm(x) for x in e.elts)
         if isinstance(e, ast.Name):
-            return e.id[:1].isupper() or e.id in ("True", "False", "None")
+            return e.id[:1].isupper() or e.id in ("True", "False", "None") or e.id in str_params
         return provably_str(e)
     return all(imm(r.value) for r in ast.walk(fn) if isinstance(r, ast.Return))
 
@@ -297,7 +323,7 @@ def _w1_memo(ck, sl):
             for a in list(c.args) + [k.value for k in c.keywords]:
                 if not provably_str(a, cf):
                     unsafe.append((cf, c, a))
-        if sites and not unsafe and _immutable_result(fi.node):
+        if sites and not unsafe and _immutable_result(fi.node, params):
             ck.ok(rule, "%s: @%s" % (q.fn(fi), _deco_name(memo[0])), "only called with strings, immutable results (%d call sites)" % len(sites), fi.loc())
             continue
         if unsafe:
